@@ -42,6 +42,7 @@ func mergeErrors(ctx context.Context, cs ...chan error) chan error {
 	// copies values from c to out until c is closed, then calls
 	// wg.Done.
 	output := func(c <-chan error) {
+		defer wg.Done()
 		for n := range c {
 			select {
 			case <-ctx.Done():
@@ -49,7 +50,6 @@ func mergeErrors(ctx context.Context, cs ...chan error) chan error {
 			case out <- n:
 			}
 		}
-		wg.Done()
 	}
 	wg.Add(len(cs))
 	for _, c := range cs {
